@@ -139,7 +139,9 @@ def cost(gp):
 def run(tier):
     chk = Check(PROP, tier)
     chk.model("MC_Vectors")
-    chk.exec_and_validate("T_SM2", gen(chk, tier), keyfn, accel=True, families=("bits", "big"), cost=cost)
+    cmds_ = gen(chk, tier)
+    chk.exec_and_validate("T_SM2", cmds_, keyfn, accel=True, families=("bits", "big"), cost=cost)
+    chk.first_use("T_SM2", cmds_, keyfn, accel=True, families=("bits", "big"))
     if any(b["key"].startswith("specval") for b in chk.bad):
         raise core.Infra("the specification disagrees with OpenSSL on a signature OpenSSL produced: suspect SM2.tla / ZA first")
     return chk.finish(
